@@ -74,6 +74,8 @@ def cases(tier, seed):
             for npnt in NPOINTS:
                 for kind in KINDS:
                     yield ('align', trip, q, npnt, kind, seed)
+        for npnt in NPOINTS:
+            yield ('align', trip, 'affine-partial', npnt, 'linear', seed)
 
 
 def decode_case(c):
@@ -109,17 +111,31 @@ def last(v):
 
 
 def check_stat(case):
+    o = check_stat_dtype(case, float)
+    if len(case[1]) <= 6:
+        # integer and boolean observations: the statistic is the function's value, whatever the dtype of the samples
+        for dt in (np.int64, np.uint8, bool):
+            o2 = check_stat_dtype(case, dt)
+            o.viols.extend(o2.viols)
+            o.transitions += o2.transitions
+    return o
+
+
+def check_stat_dtype(case, dtype):
     from emd.cycles import get_cycle_stat
     _, v, seed = case
     lab = np.array(v, dtype=int)
     n = len(lab)
     vals = 2.0 ** (np.arange(n) + seed % 3)
+    if dtype is not float:
+        vals = (np.arange(n) * 3 + 1 + seed % 3).astype(dtype) if dtype is not bool else (np.arange(n) % 3 != 1)
     K = int(lab.max()) + 1
     viols = []
     trans = 0
     funcs = [('mean', np.mean), ('max', np.max), ('sum', np.sum), ('len', len), ('first', first), ('last', last)]
     for name, f in funcs:
-        want = np.array([f(vals[lab == c]) for c in range(K)], dtype=float)
+        with np.errstate(all='ignore'):
+            want = np.array([f(vals[lab == c]) for c in range(K)], dtype=float)
         for out in (None, 'samples'):
             try:
                 got = get_cycle_stat(lab.copy(), vals.copy(), out=out, func=f)
@@ -135,14 +151,14 @@ def check_stat(case):
                 for c in range(K):
                     exp[lab == c] = want[c]
             if got.shape != exp.shape or not np.array_equal(got, exp, equal_nan=True):
-                viols.append(('stat:value:out=%s' % out, 'labels=%s values=%s func=%s out=%r: got %s expected %s' % (
+                viols.append(('stat:value:out=%s%s' % (out, '' if dtype is float else ':non-float-values'), 'labels=%s values=%s func=%s out=%r: got %s expected %s' % (
                     list(v), vals.tolist(), name, out, got.tolist(), exp.tolist())))
     rec = Recorder()
     try:
         get_cycle_stat(lab.copy(), vals.copy(), func=rec)
         trans += 1
         want_seen = [tuple(vals[lab == c].tolist()) for c in range(K)]
-        if rec.seen != want_seen:
+        if [tuple(float(z) for z in t) for t in rec.seen] != [tuple(float(z) for z in t) for t in want_seen]:
             viols.append(('stat:samples-handed', 'labels=%s: function was handed %s expected %s' % (list(v), rec.seen, want_seen)))
     except Exception as e:
         viols.append(('stat:raise:%s' % type(e).__name__, 'labels=%s recorder raised %r' % (list(v), e)))
@@ -191,11 +207,30 @@ def quantity(q, phi):
     return phi ** 2, 2.0
 
 
+def cycle_phase(n, j):
+    """Phase samples of the j-th cycle of a triple: complete uniform ramps, except that the first cycle starts late,
+    the last one ends early (partial cycles at the record ends) and the middle one runs at non-uniform speed."""
+    u = (np.arange(n) + 0.5) / n
+    if j == 0:
+        u = 0.3 + 0.7 * u
+    elif j == 1:
+        u = u ** 1.6
+    else:
+        u = 0.8 * u
+    return u * 2 * np.pi
+
+
 def check_align(case):
     from emd.cycles import phase_align
     from emd.spectra import define_hist_bins
     _, trip, q, npnt, kind, seed = case
-    ph = np.concatenate([(np.arange(n) + 0.5) / n * 2 * np.pi for n in trip])
+    if q.endswith('-partial'):
+        q = q[:-8]
+        ph = np.concatenate([cycle_phase(n, j) for j, n in enumerate(trip)])
+        partial = True
+    else:
+        ph = np.concatenate([(np.arange(n) + 0.5) / n * 2 * np.pi for n in trip])
+        partial = False
     x, M = quantity(q, ph)
     viols = []
     try:
@@ -211,7 +246,13 @@ def check_align(case):
     judged = 0
     for c, n in enumerate(trip):
         h = 2 * np.pi / n
-        if q == 'affine':
+        if partial:
+            # only the exactness clause is judged: a quantity linear in phase is reproduced exactly (linear kind
+            # interpolates and extrapolates affine data exactly wherever the grid point lies)
+            if q != 'affine' or kind != 'linear':
+                continue
+            tol = 1e-9
+        elif q == 'affine':
             tol = 1e-9 if kind != 'nearest' else 3.0 * h / 2 + 1e-9
         elif kind == 'linear':
             tol = M * h * h / 2 + 1e-9
